@@ -14,7 +14,8 @@
 (*                                               "base" not listed         *)
 (*           has   |-> [object -> [leaf -> BOOLEAN]]  style class has leaf *)
 (*           fhas  |-> [family -> [leaf -> BOOLEAN]]  default class has it *)
-(*           def0  |-> [family -> [leaf -> value]]]   library defaults     *)
+(*           def0  |-> [family -> [leaf -> value]]    library defaults     *)
+(*           kids  |-> [object -> Seq(object)]]  children of collections   *)
 (*                                                                         *)
 (* Leaf NAMES, NOTATIONS (underscore keyword, nested dictionary, attribute *)
 (* assignment, update at any level, constructor, style=) and ALIASES are   *)
@@ -95,13 +96,41 @@ CopyF(st, cx, o, c) == [ok |-> TRUE, st |-> [st EXCEPT !.objVal[c] = st.objVal[o
 ShowF(st, cx, kw, badname) ==
     IF badname \/ (\E l \in DOMAIN kw : kw[l] = Bad) THEN Rejected(st) ELSE [ok |-> TRUE, st |-> st]
 
-\* call = [op, tgt, src, l, v, kw, badname]
+(***************************************************************************)
+(* coll.set_children_styles(arg, recursive, **kwargs)                      *)
+(*   cx.kids : [object -> Seq(object)]  the collection tree (fixed here;   *)
+(*             its edits are the subject of Tree.tla)                      *)
+(*   asg     : [given leaves -> value]  the style values given, in any     *)
+(*             notation (dictionary, underscore keywords, a mixture)       *)
+(* Names and values are checked first: an invalid one rejects the call and *)
+(* no child changes.  Otherwise every member (children; with recursive all *)
+(* descendants, child collections included) that HAS a given leaf gets it  *)
+(* as its OWN value; leaves a member does not have are skipped for it.     *)
+(* Nothing else changes: not the collection itself, not objects outside,   *)
+(* not the defaults (and not the caller's dictionary: harness clause).     *)
+(***************************************************************************)
+KidSet(cx, k) == {cx.kids[k][i] : i \in DOMAIN cx.kids[k]}
+Descendants(cx, k) ==
+    LET RECURSIVE D(_, _)
+        D(o, n) == IF n = 0 THEN {} ELSE UNION {{ch} \cup D(ch, n - 1) : ch \in KidSet(cx, o)}
+    IN D(k, Cardinality(DOMAIN cx.kids))
+Members(cx, k, rec) == IF rec THEN Descendants(cx, k) ELSE KidSet(cx, k)
+KidsValue(st, cx, mem, asg, o, l) ==      \* the own value of (o, l) after the call
+    IF o \in mem /\ l \in DOMAIN asg /\ l \in DOMAIN cx.has[o] /\ cx.has[o][l] THEN asg[l] ELSE st.objVal[o][l]
+SetKidsF(st, cx, k, asg, rec, badname) ==
+    IF badname \/ (\E l \in DOMAIN asg : asg[l] = Bad) THEN Rejected(st)
+    ELSE LET mem == Members(cx, k, rec) IN
+         [ok |-> TRUE,
+          st |-> [st EXCEPT !.objVal = [o \in DOMAIN st.objVal |-> [l \in DOMAIN st.objVal[o] |-> KidsValue(st, cx, mem, asg, o, l)]]]]
+
+\* call = [op, tgt, src, l, v, kw, badname, asg, rec]
 Apply(st, cx, call) ==
     CASE call.op = "SetObj" -> SetObjF(st, cx, call.tgt, call.l, call.v)
       [] call.op = "SetDef" -> SetDefF(st, cx, call.tgt, call.l, call.v)
       [] call.op = "Reset"  -> ResetF(st, cx)
       [] call.op = "Copy"   -> CopyF(st, cx, call.src, call.tgt)
       [] call.op = "Show"   -> ShowF(st, cx, call.kw, call.badname)
+      [] call.op = "SetKids" -> SetKidsF(st, cx, call.tgt, call.asg, call.rec, call.badname)
 
 (***************************************************************************)
 (* What C20 demands of ONE step  pre --call--> post  (used as action       *)
@@ -118,4 +147,13 @@ OtherDefLeavesKept(pre, post, f, l) ==
     \A l2 \in DOMAIN pre.def[f] : l2 # l => post.def[f][l2] = pre.def[f][l2]
 OtherFamsKept(pre, post, f) ==
     \A f2 \in Fams(pre) : f2 # f => post.def[f2] = pre.def[f2]
+\* set_children_styles: every member got every given leaf it has ...
+KidsGot(post, cx, mem, asg) ==
+    \A o \in mem : \A l \in DOMAIN asg : (l \in DOMAIN cx.has[o] /\ cx.has[o][l]) => post.objVal[o][l] = asg[l]
+\* ... its other leaves (and given leaves it does not have) kept their values ...
+KidsOtherLeavesKept(pre, post, cx, mem, asg) ==
+    \A o \in mem : \A l \in DOMAIN pre.objVal[o] :
+        ~(l \in DOMAIN asg /\ l \in DOMAIN cx.has[o] /\ cx.has[o][l]) => post.objVal[o][l] = pre.objVal[o][l]
+\* ... and nobody else (the collection itself, objects outside, deeper levels when not recursive) changed
+NonMembersKept(pre, post, mem) == \A o \in Objs(pre) \ mem : post.objVal[o] = pre.objVal[o]
 =============================================================================
